@@ -60,6 +60,7 @@ func runC07(c *core.Ctx) {
 			ice.WithHostAcceptanceMinWait([]time.Duration{0, 300 * time.Millisecond}[c.T.Choose(2, "hostwait")]),
 			ice.WithCandidateTypes([]ice.CandidateType{ice.CandidateTypeHost, ice.CandidateTypeServerReflexive}),
 			ice.WithDisableActiveTCP(),
+			ice.WithRenomination(ice.DefaultNominationValueGenerator()),
 		}
 	}
 	cfg := rig.DuoCfg{AddrsA: c01Addrs("10.0.1", k.nA), AddrsB: c01Addrs("10.0.2", k.nB), OptsA: opts(), OptsB: opts()}
@@ -145,10 +146,81 @@ func runC07(c *core.Ctx) {
 	refreshKnown()
 	sess.generation(0)
 	extra := c.T.Range(10, 60, "extra")
+	renomAt := -1
+	if c.T.Bias(1, 2, "renominate") {
+		renomAt = c.T.Choose(extra, "renomat")
+	}
 	for i := 0; i < extra && !c.Failed(); i++ {
 		refreshKnown()
+		if i == renomAt {
+			// re-selection in the middle of the data phase: the controlling side renominates another validated pair
+			snap := rig.TakeSnap(d.A)
+			var other []rig.PairSnap
+			for _, p := range snap.Pairs {
+				if p.State == ice.CandidatePairStateSucceeded && p.Key() != snap.Selected {
+					other = append(other, p)
+				}
+			}
+			if len(other) > 0 && snap.Selected != "" {
+				p := other[c.T.Choose(len(other), "renompair")]
+				if lc, rc := c20Find(d.A, p.Local, p.Remote); lc != nil && rc != nil {
+					if err := d.A.A.RenominateCandidate(lc, rc); err == nil {
+						c.Fault("renominate-during-data")
+						c.Logf("renominate %s", p.Key())
+					}
+					d.S.Settle()
+				}
+			}
+		}
 		d.S.StepFair(k.checkInterval)
 		sess.hook("connected")
+	}
+	if !c.Failed() {
+		o.final()
+	}
+	if c.Failed() || !c.T.Bias(1, 3, "restart-data") {
+		return
+	}
+	// Restart: the data path must fail closed until a pair of the new generation is validated, and work again
+	c.Fault("restart-during-data")
+	for _, s := range sides {
+		uf, pw := rig.Creds(s.ag.Name, 1)
+		if err := s.ag.A.Restart(uf, pw); err != nil {
+			c.Failf("harness/restart", "%v", err)
+			return
+		}
+		s.ag.Ufrag, s.ag.Pwd = uf, pw
+		d.S.Settle()
+		// nothing of the old generation may carry data any more
+		s.selKey = ""
+	}
+	for _, dg := range d.W.InFlight() {
+		d.W.Drop(dg) // old-generation traffic (its data would reach sockets that no longer exist)
+	}
+	refreshKnown()
+	o.check()
+	for i := 0; i < 3 && !c.Failed(); i++ {
+		o.write() // no validated pair yet: must be refused
+	}
+	for _, ag := range []*rig.AgentH{d.A, d.B} {
+		if err := d.Gather(ag); err != nil {
+			c.Failf("harness/gather", "%v", err)
+			return
+		}
+	}
+	_ = d.A.A.SetRemoteCredentials(d.B.Ufrag, d.B.Pwd)
+	_ = d.B.A.SetRemoteCredentials(d.A.Ufrag, d.A.Pwd)
+	for _, cand := range d.A.LocalCands() {
+		_ = d.Signal(d.A, d.B, cand)
+	}
+	for _, cand := range d.B.LocalCands() {
+		_ = d.Signal(d.B, d.A, cand)
+	}
+	n2 := c.T.Range(10, 50, "afterrestart")
+	for i := 0; i < n2 && !c.Failed(); i++ {
+		refreshKnown()
+		d.S.StepFair(k.checkInterval)
+		sess.hook("restarted")
 	}
 	if !c.Failed() {
 		o.final()
